@@ -231,6 +231,37 @@ message Holder {
 """
 
 
+def schema_names():
+    """field, oneof and message names that meet the names generated code uses itself (Encode, Decode, String, Get*, XXX_unrecognized)."""
+    return header("names") + """
+message Fields {
+  option (pico.message).capture_unrecognized_fields = true;
+  string encode = 1;
+  int32 decode = 2;
+  bool string = 3;
+  int64 reset = 4;
+  repeated string get = 5;
+  sint32 get_get = 6;
+  bytes xxx_unrecognized = 7;
+  oneof k {
+    int32 a = 8;
+    string encode_too = 9;
+  }
+  Fields m = 10;
+  map<string, int32> c = 11;
+}
+message Oneofs {
+  oneof encode {
+    int32 x = 1;
+    bool decode = 2;
+  }
+  Fields fields = 3;
+}
+message Encoder { int32 decoder = 1; Decoder message = 2; }
+message Decoder { repeated Encoder encoder = 1; }
+"""
+
+
 def schema_bigenum():
     """enum size boundaries (top-level with 20 values, nested with 17, negative and sparse numbers)."""
     s = header("bigenum", pico=False) + "enum Code {\n"
@@ -371,7 +402,7 @@ BOUNDARY = {
 
 def fixed_schemas():
     return {"allmaps": schema_allmaps(), "recur": schema_recur(), "presence": schema_presence(), "order": schema_order(), "casts": schema_casts(),
-            "capone": schema_capone(), "oneofap": schema_oneofap(), "nested": schema_nested(), "empty": schema_empty(), "bigenum": schema_bigenum(), "wkimp": schema_wkimp()}
+            "capone": schema_capone(), "oneofap": schema_oneofap(), "nested": schema_nested(), "empty": schema_empty(), "names": schema_names(), "bigenum": schema_bigenum(), "wkimp": schema_wkimp()}
 
 
 def build(schemas, tag="fresh"):
